@@ -295,6 +295,12 @@ func mirrorEngine(c *Ctx) {
 		for i := 0; i < l; i++ {
 			cs = append(cs, conds[c.Intn(len(conds))])
 		}
+		// permanent corpus of source lists: something that is read (and must not be written) ahead of the holder
+		fixed := [][]string{{"lacking", "good"}, {"good", "lacking"}, {"lacking", "lacking"}, {"missingdir", "good"}, {"lacking", "httpgood"},
+			{"dirware", "good"}, {"corrupt", "good"}, {"mislabelled", "lacking", "good"}, {"httpgood"}, {"missingdir", "lacking", "httpgood", "good"}}
+		if k < len(fixed) {
+			cs = fixed[k]
+		}
 		tk := []string{"ca", "file"}[c.Intn(2)]
 		if c.Chance(1, 4) {
 			tk += "!"
